@@ -65,6 +65,10 @@ func RestoreCreateContainerV2Request(contractCalls []event.NotaryEvent) (event.E
 	res.MainTransaction = *cnrCall.Raw().MainTransaction
 
 	if withOptionalEacl {
+		if c := contractCalls[1]; c.ScriptHash() != cnrCall.ScriptHash() || c.Type().String() != fschaincontracts.PutContainerEACLMethod {
+			return nil, fmt.Errorf("unexpected additional call of %s method in %s contract", c.Type(), c.ScriptHash().StringLE())
+		}
+
 		ev, err := RestorePutContainerEACLRequest(contractCalls[1])
 		if err != nil {
 			return nil, fmt.Errorf("additional eACL setting parsing: %w", err)
